@@ -248,7 +248,10 @@ func instrOf(v ssa.Value, f *frame) ssa.Instruction {
 }
 
 // evalMods evaluates the modifies clause of sp in env (old state).
-func (vc *VC) evalMods(sp *spec.FuncSpec, env *Env) ([]modLoc, error) {
+// evalMods evaluates a modifies clause.  phase 0: the entries named through parameters (entry
+// state); phase 1: the `modifies@exit` entries, named through the results (env binds them; heap
+// reads still use the entry state, on both the proving and the using side); phase 2: all.
+func (vc *VC) evalMods(sp *spec.FuncSpec, env *Env, phase int) ([]modLoc, error) {
 	tt := vc.tt
 	var out []modLoc
 	curCond := True // entry-state condition of the modifies entry being expanded
@@ -275,6 +278,10 @@ func (vc *VC) evalMods(sp *spec.FuncSpec, env *Env) ([]modLoc, error) {
 		walk(l.Ty, l.Off)
 	}
 	for i, m := range sp.Modifies {
+		atExit := i < len(sp.ModAtExit) && sp.ModAtExit[i]
+		if (phase == 0 && atExit) || (phase == 1 && !atExit) {
+			continue
+		}
 		curCond = True
 		if i < len(sp.ModCond) && sp.ModCond[i] != nil {
 			c, err := env.evalBool(sp.ModCond[i])
@@ -448,8 +455,13 @@ func (vc *VC) modKeysOf(sp *spec.FuncSpec, callee *ssa.Function, cm *ssa.CallCom
 			}
 		}
 		st := &State{H: map[string]Term{}, Alloc: Term{"dummy_alloc", SInt}, Base: &base{id: "dummy"}}
+		var dres []Term
+		for i := 0; i < sig.Results().Len(); i++ {
+			dres = append(dres, Term{fmt.Sprintf("dummy_res%d", i), vc.tt.sort(sig.Results().At(i).Type())})
+		}
+		bindResults(names, sig, sp, dres)
 		env := &Env{vc: vc, names: names, st: st, old: st, pkg: vc.pkgOf(callee, sp)}
-		mods, err := vc.evalMods(sp, env)
+		mods, err := vc.evalMods(sp, env, 2)
 		if err != nil {
 			return
 		}
@@ -550,6 +562,11 @@ func (f *frame) applySpec(sp *spec.FuncSpec, callee *ssa.Function, sig *types.Si
 	if in, ok := v.(ssa.Instruction); ok {
 		where = f.pos(in)
 	}
+	var results []Term
+	for i := 0; i < sig.Results().Len(); i++ {
+		rt := sig.Results().At(i).Type()
+		results = append(results, vc.declare(f.pfx+"r_"+shortName(sp), vc.tt.sort(rt)))
+	}
 	hasMod := false
 	for _, part := range parts {
 		pre := &Env{vc: vc, names: part.names, st: old, old: old, pkg: pkg}
@@ -564,7 +581,11 @@ func (f *frame) applySpec(sp *spec.FuncSpec, callee *ssa.Function, sig *types.Si
 			}
 			// precondition obligations belong to the caller's properties too
 			props = unionProps(props, vc.curProps)
-			vc.oblige("requires@"+shortName(sp), props, g, t, c.Src, where)
+			rk := "requires@" + shortName(sp)
+			if c.Label != "" {
+				rk += ":" + c.Label
+			}
+			vc.oblige(rk, props, g, t, c.Src, where)
 		}
 		if part.sp.HasMod {
 			hasMod = true
@@ -580,7 +601,26 @@ func (f *frame) applySpec(sp *spec.FuncSpec, callee *ssa.Function, sig *types.Si
 				continue
 			}
 			pre := &Env{vc: vc, names: part.names, st: old, old: old, pkg: pkg}
-			m, err := vc.evalMods(part.sp, pre)
+			m, err := vc.evalMods(part.sp, pre, 0)
+			if err != nil {
+				return nil, fmt.Errorf("%s:%d: %v", part.sp.File, part.sp.Line, err)
+			}
+			mods = append(mods, m...)
+			// locations named through the results (modifies@exit)
+			rn := map[string]SV{}
+			for k, x := range part.names {
+				rn[k] = x
+			}
+			if part.resName == nil {
+				bindResults(rn, sig, sp, results)
+			} else {
+				for i, r := range part.resName {
+					if i < len(results) {
+						rn[r] = SV{T: results[i], Ty: sig.Results().At(i).Type()}
+					}
+				}
+			}
+			m, err = vc.evalMods(part.sp, &Env{vc: vc, names: rn, st: old, old: old, pkg: pkg}, 1)
 			if err != nil {
 				return nil, fmt.Errorf("%s:%d: %v", part.sp.File, part.sp.Line, err)
 			}
@@ -596,12 +636,8 @@ func (f *frame) applySpec(sp *spec.FuncSpec, callee *ssa.Function, sig *types.Si
 			w() // type invariants of the havocked cells w.r.t. the new frontier
 		}
 	}
-	var results []Term
 	for i := 0; i < sig.Results().Len(); i++ {
-		rt := sig.Results().At(i).Type()
-		t := vc.declare(f.pfx+"r_"+shortName(sp), vc.tt.sort(rt))
-		vc.assume(True, vc.tt.wf(rt, t, st.Alloc))
-		results = append(results, t)
+		vc.assume(True, vc.tt.wf(sig.Results().At(i).Type(), results[i], st.Alloc))
 	}
 	for _, part := range parts {
 		post := map[string]SV{}
